@@ -553,6 +553,35 @@ def rule_index_broadcast(repo: Repo, rep: Report, classes: List[ClassInfo]) -> i
     return n + 1
 
 
+def rule_block_axis(repo: Repo, rep: Report, classes: List[ClassInfo]) -> int:
+    """`apply_blockwise(x, n, fn)` hands fn the view (*lead, blocks, n): every block of every row is fn's to process.  A
+    subscript of that view with an integer literal on a leading or the block axis (`r_block[i, 0, :]`) reads one fixed
+    block, so for an input that groups several blocks along the last dimension the others are silently dropped and the
+    result is not the stack of the per-block results."""
+    n = 0
+    for ci in classes:
+        for m, fi in ci.methods.items():
+            calls = [c for c in ast.walk(fi.node) if isinstance(c, ast.Call) and call_name(c) == "apply_blockwise" and len(c.args) >= 3 and isinstance(c.args[2], ast.Name)]
+            for c in calls:
+                fn = next((d for d in ast.walk(fi.node) if isinstance(d, ast.FunctionDef) and d.name == c.args[2].id), None)
+                if fn is None or not fn.args.args:
+                    continue
+                par = fn.args.args[0].arg
+                n += 1
+                bad = None
+                for sub in ast.walk(fn):
+                    if isinstance(sub, ast.Subscript) and isinstance(sub.value, ast.Name) and sub.value.id == par and isinstance(sub.slice, ast.Tuple) and len(sub.slice.elts) >= 2:
+                        lead = sub.slice.elts[:-1]
+                        if any(isinstance(e, ast.Constant) and isinstance(e.value, int) and not isinstance(e.value, bool) for e in lead):
+                            bad = sub
+                            break
+                if bad is not None:
+                    rep.violation("BLOCK-AXIS", fi, f"{ci.name}.{m}::{fn.name}: {unparse(bad)}", f"the block function reads `{unparse(bad)}`: a fixed index on the block axis of the (*lead, blocks, n) view - with several blocks per row only that block is processed and the others are dropped (the result differs from per-block evaluation and the layout is not rejected)", node=bad)
+                else:
+                    rep.ok("BLOCK-AXIS", fi, f"{ci.name}.{m}::{fn.name}({par})", "no fixed index on a leading or block axis of the blocked view", node=fn, nontrivial=False)
+    return n
+
+
 def rule_zero_path(repo: Repo, rep: Report) -> int:
     """batched vs single-item zero-signal test of the power constraints uses the same quantity."""
     from .c08 import CBScaling, PW, cfg
@@ -597,6 +626,7 @@ def run(repo: Repo, rep: Report, tier: str) -> None:
     n += rule_tlist(repo, rep, classes)
     n += rule_zero_path(repo, rep)
     n += rule_index_broadcast(repo, rep, classes)
+    n += rule_block_axis(repo, rep, classes)
     rep.floor("C20 rule instances", n, 85)
     rep.decided_clauses += [
         "no write through an alias of an input tensor in any component's forward / inverse / syndrome",
